@@ -17,12 +17,12 @@ type ProvDesc struct {
 
 	// annotations
 	Required, Desired, Shun, Cacheable, MustCache, NotCacheable, Memoize, Singleton bool
-	NonFinal, Reorder, Parallel                                                      bool
-	Loose, MustConsume, ConsOpt, ShadowOK                                            []int
-	Name                                                                             string
-	Cluster                                                                          int // 0 = none, else group number within the case
-	Replace, Before, After                                                           string
-	Refl                                                                             bool // supplied through the Reflective interfaces
+	NonFinal, Reorder, Parallel                                                     bool
+	Loose, MustConsume, ConsOpt, ShadowOK                                           []int
+	Name                                                                            string
+	Cluster                                                                         int // 0 = none, else group number within the case
+	Replace, Before, After                                                          string
+	Refl                                                                            bool // supplied through the Reflective interfaces
 
 	// behaviour script
 	FailMask uint // fallible: TerminalError non-nil on call k iff bit (k%8) is set
